@@ -246,3 +246,70 @@ def merge_winner(fn_node: ast.AST, a: str, b: str) -> str | None:
                 if x and y and x != y:
                     return y
     return None
+
+
+_COPIERS = {"dict", "list", "set", "tuple", "frozenset", "copy.copy", "copy.deepcopy", "deepcopy", "sorted"}
+
+
+def _fresh_wrt(value: ast.AST, name: str) -> bool:
+    """`value` cannot evaluate to the object bound to `name` (every use of `name` is a test or inside a copying call)."""
+    par = {id(c): p for p in ast.walk(value) for c in ast.iter_child_nodes(p)}
+    from .loader import dotted
+
+    for x in ast.walk(value):
+        if not (isinstance(x, ast.Name) and x.id == name):
+            continue
+        y: ast.AST = x
+        ok = False
+        while id(y) in par:
+            child, y = y, par[id(y)]
+            if isinstance(y, ast.Call) and (dotted(y.func) in _COPIERS or (isinstance(y.func, ast.Attribute) and y.func.attr in ("copy", "items", "keys", "values") and child is y.func)):
+                ok = True
+            if isinstance(y, ast.Call) and dotted(y.func) in _COPIERS and child in y.args:
+                ok = True
+            if isinstance(y, ast.Compare) or (isinstance(y, ast.IfExp) and child is y.test):
+                ok = True
+            if isinstance(y, (ast.Dict, ast.DictComp, ast.ListComp, ast.SetComp)):
+                ok = True  # {**x} / comprehension over x builds a new container
+            if isinstance(y, ast.BinOp) and isinstance(y.op, ast.BitOr):
+                ok = True  # x | y builds a new dict
+        if isinstance(value, ast.Name) and value.id == name:
+            ok = False
+        if not ok:
+            return False
+    return True
+
+
+def caller_object_mutations(cfg, fn_node: ast.AST, param: str) -> list[ast.AST]:
+    """Statements that may mutate the object the CALLER passed as `param` (in place), following rebinding of the name.
+
+    The entry binding of `param` is killed by an assignment `param = <value that cannot be the same object>`; a mutating
+    method call / subscript store / augmented assignment through `param` that is reachable from ENTRY without crossing a
+    kill mutates the caller's object.
+    """
+    from .cfg import ENTRY
+
+    mut = {"update", "setdefault", "append", "extend", "pop", "popitem", "clear", "insert", "remove", "sort", "reverse", "add", "discard", "__setitem__"}
+    kills = set(cfg.nodes(lambda s: isinstance(s, (ast.Assign, ast.AnnAssign)) and getattr(s, "value", None) is not None
+                          and any(isinstance(t, ast.Name) and t.id == param for t in (s.targets if isinstance(s, ast.Assign) else [s.target])) and _fresh_wrt(s.value, param)))
+    reach = cfg.reachable_from(ENTRY, without=kills)
+    # a kill node itself is reached with the old binding but its own store happens after evaluation: not a mutation site
+    out = []
+    for n in sorted(reach - kills):
+        st = cfg.stmt.get(n)
+        if st is None:
+            continue
+        from .cfg import header_parts
+
+        for part in header_parts(st):
+            for x in ast.walk(part):
+                if isinstance(x, ast.Call) and isinstance(x.func, ast.Attribute) and x.func.attr in mut and isinstance(x.func.value, ast.Name) and x.func.value.id == param:
+                    out.append(x)
+            if isinstance(part, (ast.Assign, ast.AugAssign, ast.Delete)):
+                tg = part.targets if isinstance(part, (ast.Assign, ast.Delete)) else [part.target]
+                for t in tg:
+                    if isinstance(t, ast.Subscript) and isinstance(t.value, ast.Name) and t.value.id == param:
+                        out.append(part)
+                    if isinstance(part, ast.AugAssign) and isinstance(t, ast.Name) and t.id == param:
+                        out.append(part)
+    return out
